@@ -25,7 +25,7 @@ def check(ctx, run):
     g = lambda n: cv(f, n)
     b = f.bodies.get(CONE[1])
     if b is None:
-        run.violation('R14.2', CONE[1], 'body', 'function not found (anchor lost)')
+        run.undecided('R14.2', CONE[1], 'body', 'function not found (anchor lost)')
         return report.finish(run, level='other', explanation=EXPLANATION)
     paths, loops = editing.region_paths(b)
     loc = f'{b.file}:{b.line}'
@@ -109,7 +109,7 @@ def check(ctx, run):
     for fn in CONE[2:]:
         bb_ = f.bodies.get(fn)
         if bb_ is None:
-            run.violation('R14.6', fn, 'appends', 'function not found (anchor lost)')
+            run.undecided('R14.6', fn, 'appends', 'function not found (anchor lost)')
             continue
         direct = [canon(callee_name(t)) for _, t in bb_.calls() if called(callee_name(t), 'Vec::push', 'Vec::extend_from_slice', 'WriteBytesExt::write_u32')]
         via = [t for _, t in bb_.calls() if called(callee_name(t), 'functions::scalar_convert_to_comparable')]
